@@ -46,6 +46,34 @@ kwargs)` - the string under which the cache decorator stores the result - not th
 hands the decorator's `key=` template to `thunder_protection(key=decor_kwargs.get("key"))`, so arguments the
 template leaves out (`@cache(ttl, key="user:{user_id}") async def get_user(session, user_id)`) do not
 distinguish calls.  `Args` / `cacheKey` / `Act.callWith` below say so; rendering itself is C08.
+`early` (cashews/decorators/cache/early.py, with the D44 repair).  A stored result carries two deadlines: the early
+one (`early_expire_at = stored_at + early_ttl`, checked by the decorator: fresh while `now <= early`) and the hard
+one (`expire = ttl`, the backend drops the value: present while `now < stored_at + ttl`).  An execution that finds a
+*stale* value (early deadline passed, value still stored) returns it and starts a RECALCULATION: a separate task that
+calls the wrapped function again and stores the new result - outside `thunder_protection`'s table, because the
+execution that started it is over at once (`background=True`; with `background=False` it awaits the recalculation and
+delivers its outcome).  Two guards keep recalculations of one key from piling up:
+
+    lock_key = _cache_key + ":lock"; backend.set(lock_key, "1", expire=_early_ttl, exist=False)   -- `lock`
+    recalculations: dict[str, asyncio.Task] = {}                                                  -- `rtable` (D44)
+        if cached is _empty:
+            recalculation = recalculations.get(_cache_key)
+            if recalculation is not None: return await asyncio.shield(recalculation)     -- cold miss: join it
+            return await _get_result_for_early(...)                                      -- cold miss: run the body
+        ...
+        if early_expire_at >= now: return result                                         -- fresh
+        if _cache_key in recalculations: return result                                   -- stale, one is running
+        if not await backend.set(lock_key, ...exist=False): return result                -- stale, lock held
+        task = asyncio.create_task(_get_result_for_early(..., unlock=True))              -- stale: start one
+        recalculations[_cache_key] = task; task.add_done_callback(lambda _: recalculations.pop(_cache_key, None))
+        if not background: return await task
+        return result
+
+The lock key lives `early_ttl` only and the stored value `ttl` only; a recalculation can outlive both (`tick`).
+Without the table (`guarded := false`, the code before D44) a stale hit after the lock expired starts a second
+recalculation and a cold miss after the value expired runs the body in the execution - bodies of one key overlap
+(Props/C07.lean `recalculation_table_is_necessary`).  With it (`guarded := true`) at most one body per key runs at
+any time, counting executions and recalculations together (`body_running_count_le_one`).
 -/
 namespace CashewsVerif.SingleFlight
 
@@ -66,9 +94,11 @@ inductive Outcome where
 structure Exec where
   key : Nat
   remaining : Nat          -- scripted suspension points the body still has to pass
-  outcome : Outcome        -- scripted: what the body returns / raises / that it ends cancelled (for a hit: the stored value)
+  outcome : Outcome        -- scripted: what the body returns / raises / that it ends cancelled (for a hit: the stored value;
+                           -- for an execution that awaits a recalculation: that recalculation's scripted outcome)
   finished : Bool
-  hit : Bool               -- the cache decorator found the value: the wrapped body is not run
+  hit : Bool               -- this execution runs no body of its own (a stored value is served / a recalculation is awaited)
+  waitsOn : Option Nat     -- the recalculation this execution awaits (`await asyncio.shield(recalculation)`, `await task`)
   deriving DecidableEq, Repr
 
 inductive CSt where
@@ -82,6 +112,20 @@ structure Caller where
   st : CSt
   deriving DecidableEq, Repr
 
+/-- what the decorated function is and how it is configured -/
+structure Cfg where
+  caching : Bool               -- executions run a cache decorator (Cache facade) / the bare function
+  ttl : Nat                    -- the decorator's ttl, in ticks
+  early : Bool := false        -- the decorator is `early`: stored values have an early deadline, stale hits recalculate
+  earlyTtl : Nat := 0          -- `early_ttl` in ticks: early deadline of a stored value, lifetime of the lock key
+  background : Bool := true    -- `early(background=...)`: false - the execution that starts a recalculation awaits it
+  guarded : Bool := true       -- the per-key `recalculations` table of D44 is there (false: the code before the repair)
+  recalcSkip : Nat := 0        -- suspension points of a script that a recalculation does not have (gated backends: the lookup)
+  deriving DecidableEq, Repr
+
+/-- bare `thunder_protection` (`b = false`) or a plain cache decorator with ttl `T` underneath (`b = true`) -/
+def Cfg.plain (b : Bool) (T : Nat) : Cfg := { caching := b, ttl := T }
+
 structure SfSt where
   caching : Bool                     -- executions run a cache decorator (Cache facade) / the bare function
   ttl : Nat                          -- the decorator's ttl, in ticks: how long a stored result stays a hit
@@ -89,12 +133,25 @@ structure SfSt where
   table : Nat → Option Nat           -- `tasks`: key ↦ execution in flight
   execs : Nat → Option Exec
   callers : Nat → Option Caller
-  cached : Nat → Option (Nat × Nat)  -- the cache, as far as it matters here: key ↦ (stored result, instant it expires)
+  cached : Nat → Option (Nat × Nat × Nat)  -- the cache: key ↦ (stored result, early deadline, instant it expires)
   created : List Nat                 -- ids of the executions created so far, in order
+  early : Bool
+  earlyTtl : Nat
+  background : Bool
+  guarded : Bool
+  recalcSkip : Nat
+  recalcs : Nat → Option Exec        -- recalculations (`_get_result_for_early(..., unlock=True)` tasks), named after the caller
+                                     -- whose execution started them
+  rtable : Nat → Option Nat          -- `recalculations`: key ↦ recalculation running
+  lock : Nat → Option Nat            -- the lock keys: key ↦ instant the lock key expires
+  rcreated : List Nat                -- ids of the recalculations started so far, in order
 
-def init (caching : Bool) (ttl : Nat) : SfSt :=
-  { caching := caching, ttl := ttl, now := 0, table := fun _ => none, execs := fun _ => none, callers := fun _ => none,
-    cached := fun _ => none, created := [] }
+def init (cfg : Cfg) : SfSt :=
+  { caching := cfg.caching, ttl := cfg.ttl, now := 0, table := fun _ => none, execs := fun _ => none,
+    callers := fun _ => none, cached := fun _ => none, created := [],
+    early := cfg.early, earlyTtl := cfg.earlyTtl, background := cfg.background, guarded := cfg.guarded,
+    recalcSkip := cfg.recalcSkip, recalcs := fun _ => none, rtable := fun _ => none, lock := fun _ => none,
+    rcreated := [] }
 
 inductive Act where
   | call (c key n : Nat) (o : Outcome)   -- caller `c` calls with `key`; if it starts an execution, that one has script (n, o)
@@ -102,6 +159,8 @@ inductive Act where
   | finish (e : Nat)                     -- the body of `e` returns / raises / ends cancelled; done-callbacks run
   | cancel (c : Nat)                     -- `c`'s task is cancelled
   | tick (d : Nat)                       -- `d` ticks of time pass (bodies stay suspended where they are)
+  | rstep (r : Nat)                      -- the body run by recalculation `r` passes one suspension point
+  | rfinish (r : Nat)                    -- recalculation `r` ends: stores a returned value, unlocks, leaves `recalculations`
   deriving DecidableEq, Repr
 
 /-- The arguments of one call of the decorated function, as far as single-flight can see them: the part the
@@ -118,20 +177,63 @@ def cacheKey (a : Args) : Nat := a.keyed
 /-- a call with full arguments is a call with their cache key -/
 def Act.callWith (c : Nat) (a : Args) (n : Nat) (o : Outcome) : Act := .call c (cacheKey a) n o
 
-/-- `backend.get(key)` by the cache decorator: the stored value, unless it has expired (Memory: gone as soon as
-`expire_at <= time.time()`); nothing when the executions run the bare function -/
-def lookupCached (s : SfSt) (key : Nat) : Option Nat :=
+/-- what `backend.get(key)` means to the decorator -/
+inductive Look where
+  | off                    -- no cache decorator: the executions run the bare function
+  | cold                   -- nothing stored, or expired (Memory: gone as soon as `expire_at <= time.time()`)
+  | fresh (v : Nat)        -- stored and to be served as it is
+  | stale (v : Nat)        -- `early` only: stored, but `early_expire_at < now`
+  deriving DecidableEq, Repr
+
+def look (s : SfSt) (key : Nat) : Look :=
   if s.caching then
     match s.cached key with
-    | some (v, exp) => if s.now < exp then some v else none
-    | none => none
-  else none
+    | some (v, soft, hard) =>
+      if s.now < hard then (if s.early = true ∧ soft < s.now then .stale v else .fresh v) else .cold
+    | none => .cold
+  else .off
 
-/-- the execution a creating call starts: a hit of the cache decorator, or the scripted body -/
-def newExec (s : SfSt) (key n : Nat) (o : Outcome) : Exec :=
-  match lookupCached s key with
-  | some v => { key := key, remaining := 0, outcome := .ret v, finished := false, hit := true }
-  | none => { key := key, remaining := n, outcome := o, finished := false, hit := false }
+/-- `backend.set(lock_key, "1", expire=_early_ttl, exist=False)` would fail: the lock key is there and has not expired -/
+def lockHeld (s : SfSt) (key : Nat) : Bool :=
+  match s.lock key with
+  | some d => decide (s.now < d)
+  | none => false
+
+/-- `recalculations.get(_cache_key)` - nothing when the table does not exist (the code before D44) -/
+def running (s : SfSt) (key : Nat) : Option Nat := if s.guarded then s.rtable key else none
+
+/-- does a call that starts an execution for `key` (nothing in flight in `tasks`) start a recalculation?  A stale
+value, no recalculation of the key running (as far as the table tells), lock key free. -/
+def spawns (s : SfSt) (key : Nat) : Bool :=
+  match look s key with
+  | .stale _ => (running s key).isNone && !lockHeld s key
+  | _ => false
+
+/-- an execution that serves the stored value -/
+def hitExec (key v : Nat) : Exec :=
+  { key := key, remaining := 0, outcome := .ret v, finished := false, hit := true, waitsOn := none }
+
+/-- the execution a creating call by caller `c` starts -/
+def newExec (s : SfSt) (c key n : Nat) (o : Outcome) : Exec :=
+  match look s key with
+  | .off => { key := key, remaining := n, outcome := o, finished := false, hit := false, waitsOn := none }
+  | .fresh v => hitExec key v
+  | .stale v =>
+    if spawns s key = true ∧ s.background = false then
+      -- `if not background: return await task` - the recalculation it starts is named after `c` as well
+      { key := key, remaining := 0, outcome := o, finished := false, hit := true, waitsOn := some c }
+    else hitExec key v
+  | .cold =>
+    match running s key with
+    | some r =>   -- `return await asyncio.shield(recalculation)`
+      { key := key, remaining := 0,
+        outcome := (match s.recalcs r with | some y => y.outcome | none => o),
+        finished := false, hit := true, waitsOn := some r }
+    | none => { key := key, remaining := n, outcome := o, finished := false, hit := false, waitsOn := none }
+
+/-- the recalculation a stale hit starts: the wrapped function is called again with the same arguments -/
+def newRecalc (s : SfSt) (key n : Nat) (o : Outcome) : Exec :=
+  { key := key, remaining := n - s.recalcSkip, outcome := o, finished := false, hit := false, waitsOn := none }
 
 /-- shield fan-out: every caller still waiting on `e` receives `o` -/
 def deliver (callers : Nat → Option Caller) (e : Nat) (o : Outcome) : Nat → Option Caller := fun c =>
@@ -139,7 +241,8 @@ def deliver (callers : Nat → Option Caller) (e : Nat) (o : Outcome) : Nat → 
   | some ⟨some e', .waiting⟩ => if e' = e then some ⟨some e', .got o⟩ else some ⟨some e', .waiting⟩
   | r => r
 
-/-- `_wrapper` up to its `await` (atomic by A1) -/
+/-- `_wrapper` up to its `await` (atomic by A1); when it starts an execution of `early` that finds a stale value,
+also everything that execution does up to its first suspension: lock key, `create_task`, `recalculations[key] = task` -/
 def stepCall (s : SfSt) (c key n : Nat) (o : Outcome) : SfSt :=
   match s.callers c with
   | some _ => s                                   -- caller ids are used once
@@ -149,9 +252,13 @@ def stepCall (s : SfSt) (c key n : Nat) (o : Outcome) : SfSt :=
       { s with callers := upd s.callers c (some ⟨some e, .waiting⟩) }
     | none =>                                     -- create_task; tasks[_key] = task; await asyncio.shield(task)
       { s with table := upd s.table key (some c),
-               execs := upd s.execs c (some (newExec s key n o)),
+               execs := upd s.execs c (some (newExec s c key n o)),
                callers := upd s.callers c (some ⟨some c, .waiting⟩),
-               created := s.created ++ [c] }
+               created := s.created ++ [c],
+               recalcs := if spawns s key = true then upd s.recalcs c (some (newRecalc s key n o)) else s.recalcs,
+               rtable := if spawns s key = true then upd s.rtable key (some c) else s.rtable,
+               lock := if spawns s key = true then upd s.lock key (some (s.now + s.earlyTtl)) else s.lock,
+               rcreated := if spawns s key = true then s.rcreated ++ [c] else s.rcreated }
 
 def stepBody (s : SfSt) (e : Nat) : SfSt :=
   match s.execs e with
@@ -160,19 +267,26 @@ def stepBody (s : SfSt) (e : Nat) : SfSt :=
     if x.finished = true ∨ x.remaining = 0 then s
     else { s with execs := upd s.execs e (some { x with remaining := x.remaining - 1 }) }
 
+/-- the execution awaits a recalculation that has not ended yet -/
+def blocked (s : SfSt) (x : Exec) : Bool :=
+  match x.waitsOn with
+  | some r => (match s.recalcs r with | some y => !y.finished | none => false)
+  | none => false
+
 /-- the task completes: done-callbacks run (`del tasks[_key]`, then the shields wake the waiters) -/
 def stepFinish (s : SfSt) (e : Nat) : SfSt :=
   match s.execs e with
   | none => s
   | some x =>
-    if x.finished = true ∨ x.remaining ≠ 0 then s
+    if x.finished = true ∨ x.remaining ≠ 0 ∨ blocked s x = true then s
     else
       { s with execs := upd s.execs e (some { x with finished := true }),
                table := upd s.table x.key none,            -- done_callback: `del tasks[_key]`
                callers := deliver s.callers e x.outcome,
                cached :=                                    -- cache decorator: `backend.set(key, result)` for a returned value
                  match x.outcome with
-                 | .ret v => if s.caching = true ∧ x.hit = false then upd s.cached x.key (some (v, s.now + s.ttl)) else s.cached
+                 | .ret v => if s.caching = true ∧ x.hit = false then
+                     upd s.cached x.key (some (v, s.now + s.earlyTtl, s.now + s.ttl)) else s.cached
                  | .exc _ _ => s.cached
                  | .cancelled => s.cached }
 
@@ -182,18 +296,48 @@ def stepCancel (s : SfSt) (c : Nat) : SfSt :=
   | some ⟨e, .waiting⟩ => { s with callers := upd s.callers c (some ⟨e, .cancelled⟩) }   -- shield (A2): only the waiter
   | some _ => s                                                               -- already done: no effect
 
+def stepRBody (s : SfSt) (r : Nat) : SfSt :=
+  match s.recalcs r with
+  | none => s
+  | some y =>
+    if y.finished = true ∨ y.remaining = 0 then s
+    else { s with recalcs := upd s.recalcs r (some { y with remaining := y.remaining - 1 }) }
+
+/-- `_get_result_for_early(..., unlock=True)` ends: a returned value is stored with fresh deadlines, the lock key is
+deleted (`finally: asyncio.create_task(backend.delete(key + ":lock"))`), the done-callback pops `recalculations` -/
+def stepRFinish (s : SfSt) (r : Nat) : SfSt :=
+  match s.recalcs r with
+  | none => s
+  | some y =>
+    if y.finished = true ∨ y.remaining ≠ 0 then s
+    else
+      { s with recalcs := upd s.recalcs r (some { y with finished := true }),
+               rtable := upd s.rtable y.key none,
+               lock := upd s.lock y.key none,
+               cached :=
+                 match y.outcome with
+                 | .ret v => upd s.cached y.key (some (v, s.now + s.earlyTtl, s.now + s.ttl))
+                 | .exc _ _ => s.cached
+                 | .cancelled => s.cached }
+
 def step (s : SfSt) : Act → SfSt
   | .call c key n o => stepCall s c key n o
   | .bodyStep e => stepBody s e
   | .finish e => stepFinish s e
   | .cancel c => stepCancel s c
   | .tick d => { s with now := s.now + d }       -- nothing else: single-flight does not read the clock
+  | .rstep r => stepRBody s r
+  | .rfinish r => stepRFinish s r
 
 def run (s : SfSt) (tr : List Act) : SfSt := tr.foldl step s
 
 /-- `e` is an execution for `key` that has not finished -/
 def InFlight (s : SfSt) (e key : Nat) : Prop :=
   ∃ x, s.execs e = some x ∧ x.key = key ∧ x.finished = false
+
+/-- `r` is a recalculation of `key` that has not ended -/
+def Recalculating (s : SfSt) (r key : Nat) : Prop :=
+  ∃ y, s.recalcs r = some y ∧ y.key = key ∧ y.finished = false
 
 def inFlightB (s : SfSt) (key e : Nat) : Bool :=
   match s.execs e with
@@ -208,13 +352,23 @@ def bodyRunningB (s : SfSt) (key e : Nat) : Bool :=
   | some x => x.key == key && !x.finished && !x.hit
   | none => false
 
-/-- how many wrapped bodies are running for `key` (hits run no body) -/
-def bodyRunningCount (s : SfSt) (key : Nat) : Nat := (s.created.filter (bodyRunningB s key)).length
+def recalcRunningB (s : SfSt) (key r : Nat) : Bool :=
+  match s.recalcs r with
+  | some y => y.key == key && !y.finished
+  | none => false
+
+/-- how many wrapped bodies are running for `key`: in executions (hits and executions that await a recalculation
+run none) and in recalculations -/
+def bodyRunningCount (s : SfSt) (key : Nat) : Nat :=
+  (s.created.filter (bodyRunningB s key)).length + (s.rcreated.filter (recalcRunningB s key)).length
 
 /-- bodies started so far for `key` -/
 def bodyStarts (s : SfSt) (key : Nat) : Nat :=
   (s.created.filter fun e => match s.execs e with
     | some x => x.key == key && !x.hit
+    | none => false).length +
+  (s.rcreated.filter fun r => match s.recalcs r with
+    | some y => y.key == key
     | none => false).length
 
 /-! ### scheduler granularity (what the harness can drive and the driver replays)
@@ -222,13 +376,24 @@ def bodyStarts (s : SfSt) (key : Nat) : Nat :=
 Between two quiescent points of the event loop the harness releases a *burst* of parked tasks (callers at
 their start, bodies at a scripted suspension point); they run in release order, each up to its next
 suspension, and then every body that has no suspension point left runs to completion.  A burst is therefore
-a list of `call` / `bodyStep` / `cancel` actions followed by `finish` for every execution that can finish.
+a list of `call` / `bodyStep` / `rstep` / `cancel` actions followed by `rfinish` for every recalculation and then
+`finish` for every execution that can finish (an execution awaiting a recalculation ends right after it).
 A time step of the schedule is a burst of its own, `[tick d]`: the clock moves between two quiescent points
-while every body stays suspended where it is (`settle` after it finishes nothing new). -/
+while every body stays suspended where it is (`settle` after it finishes nothing new).
 
-def settle (s : SfSt) : SfSt := run s (s.created.map Act.finish)
+The harness names a parked body after the caller whose script it runs - `x<c>` - whether it runs inside that
+caller's execution or inside the recalculation that execution started: `Act.ofGate` resolves the name. -/
+
+def settle (s : SfSt) : SfSt :=
+  run (run s (s.rcreated.map Act.rfinish)) (s.created.map Act.finish)
 
 def macroStep (s : SfSt) (items : List Act) : SfSt := settle (run s items)
+
+/-- the action behind the harness' "the body of script `c` passes a suspension point" -/
+def Act.ofGate (s : SfSt) (c : Nat) : Act :=
+  match s.recalcs c with
+  | some y => if y.finished then .bodyStep c else .rstep c
+  | none => .bodyStep c
 
 /-- would the action do anything here?  (the driver reports it so that the harness notices when the real
 run takes a step the model considers impossible) -/
@@ -238,12 +403,18 @@ def enabled (s : SfSt) : Act → Bool
     | some x => !x.finished && x.remaining != 0
     | none => false
   | .finish e => match s.execs e with
-    | some x => !x.finished && x.remaining == 0
+    | some x => !x.finished && x.remaining == 0 && !blocked s x
     | none => false
   | .cancel c => match s.callers c with
     | none => true
     | some ⟨_, .waiting⟩ => true
     | some _ => false
   | .tick _ => true
+  | .rstep r => match s.recalcs r with
+    | some y => !y.finished && y.remaining != 0
+    | none => false
+  | .rfinish r => match s.recalcs r with
+    | some y => !y.finished && y.remaining == 0
+    | none => false
 
 end CashewsVerif.SingleFlight
